@@ -135,3 +135,55 @@ package app
 //@   assert_at SetWritable#1 C18.rw_target [C18]: callrecv == masterNode
 //@   assert_at SetLowSpace#1 C18.low_true [C18]: callarg0 == true && g_ro[masterNode.host] && e_SetReadOnly == old(e_SetReadOnly) + 1
 //@   assert_at SetLowSpace#2 C18.low_false [C18]: callarg0 == false && !g_ro[masterNode.host] && e_SetWritable == old(e_SetWritable) + 1
+
+// ---- C17: offline-mode policy -------------------------------------------------------------------
+
+//@ define azSpec(fqdn string, sep string) = sep == "" ? "" : (strIndex(fqdn, sep) != -1 ? substr(fqdn, 0, strIndex(fqdn, sep)) : "")
+//@ define inAZ(cs map[string]*nodestate.NodeState, k string, sep string, az string) = !cs[k].IsMaster && azSpec(k, sep) == az
+
+//@ func app.getAvailabilityZone
+//@   ensures C17.az [C17]: result == azSpec(fqdn, separator)
+
+//@ func (*app.alwaysAllowOfflineFilter).CanSetOffline
+//@   ensures C17.always [C17]: result == true
+//@ func (*app.neverAllowOfflineFilter).CanSetOffline
+//@   ensures C17.never [C17]: result == false
+
+//@ func (*app.azLimitedOfflineFilter).CanSetOffline
+//@   requires vals_nonnil [safety]: forall k string :: has(clusterState, k) ==> clusterState[k] != nil
+//@   loop 1 invariant total: totalInAZ == count(k string in visited :: inAZ(clusterState, k, f.azSeparator, azSpec(host, f.azSeparator)))
+//@   loop 1 invariant off: offlineInAZ == count(k string in visited :: inAZ(clusterState, k, f.azSeparator, azSpec(host, f.azSeparator)) && clusterState[k].IsOffline)
+//@   ensures C17.cap [C17]: result <==> (count(k string in dom(clusterState) :: inAZ(clusterState, k, f.azSeparator, azSpec(host, f.azSeparator))) > 0 && floor(100.0 * real(count(k string in dom(clusterState) :: inAZ(clusterState, k, f.azSeparator, azSpec(host, f.azSeparator)) && clusterState[k].IsOffline) + pendingOfflineByAZ[azSpec(host, f.azSeparator)] + 1) / real(count(k string in dom(clusterState) :: inAZ(clusterState, k, f.azSeparator, azSpec(host, f.azSeparator))))) <= f.maxOfflinePct)
+
+//@ func app.NewOfflineModeFilter
+//@   ensures C17.pick_never [C17]: cfg.OfflineModeMaxOfflinePct <= 0 ==> hastype(result, "*neverAllowOfflineFilter")
+//@   ensures C17.pick_always [C17]: cfg.OfflineModeMaxOfflinePct >= 100 ==> hastype(result, "*alwaysAllowOfflineFilter")
+//@   ensures C17.pick_capped [C17]: 0 < cfg.OfflineModeMaxOfflinePct && cfg.OfflineModeMaxOfflinePct < 100 ==> hastype(result, "*azLimitedOfflineFilter") && unbox(result, "*azLimitedOfflineFilter").maxOfflinePct == cfg.OfflineModeMaxOfflinePct && unbox(result, "*azLimitedOfflineFilter").azSeparator == cfg.OfflineModeAZSeparator
+
+//@ define lagOf(s *nodestate.NodeState) = deref(s.SlaveState.ReplicationLag)
+//@ define lagKnown(s *nodestate.NodeState) = s.SlaveState != nil && s.SlaveState.ReplicationLag != nil
+
+//@ func (*app.App).repairSlaveOfflineMode
+//@   requires nonnil [safety]: state != nil && masterState != nil
+//@   ensures C17.online_only [C17]: e_SetOnline > old(e_SetOnline) ==> lagKnown(state) && state.IsOffline && lagOf(state) <= seconds(app.config.OfflineModeDisableLag) && !permBroken(state)
+//@   ensures C17.online_once [C17]: e_SetOnline <= old(e_SetOnline) + 1
+//@   ensures C17.offline_only [C17]: e_SetOffline > old(e_SetOffline) ==> lagKnown(state) && !state.IsOffline && ((!masterState.IsReadOnly && lagOf(state) > seconds(app.config.OfflineModeEnableLag)) || permBroken(state))
+//@   ensures C17.hysteresis [C17]: lagKnown(state) && !permBroken(state) && lagOf(state) > seconds(app.config.OfflineModeDisableLag) && lagOf(state) <= seconds(app.config.OfflineModeEnableLag) ==> e_SetOnline == old(e_SetOnline) && e_SetOffline == old(e_SetOffline)
+//@   ensures C17.unknown_lag [C17]: !lagKnown(state) ==> e_SetOnline == old(e_SetOnline) && e_SetOffline == old(e_SetOffline)
+//@   ensures C17.only_this_host [C17]: forall h string :: h != host ==> g_offline[h] == old(g_offline)[h]
+//@   ensures C17.pending_other [C17]: forall z string :: z != azSpec(host, app.config.OfflineModeAZSeparator) ==> pendingOfflineByAZ[z] == old(pendingOfflineByAZ[z])
+//@   assert_at SetOnline#1 C17.resetup_fresh [C17]: !resetupStatus.Status && !(resetupStatus.UpdateTime < startupTime) && resultof("GetResetupStatus", 1, 1) == nil && resultof("GetStartupTime", 1, 1) == nil
+//@   assert_at SetOffline#1 C17.filter_ok [C17]: resultof("CanSetOffline", 1) && callrecv == node
+//@   assert_at SetOffline#2 C17.rate [C17]: now - lastShutdownNodeTime > app.config.OfflineModeEnableInterval && e_UpdateLastShutdown == old(e_UpdateLastShutdown) + 1 && callrecv == node
+//@   assert_after SetOffline#1 C17.pending_inc_pre [C17]: pendingOfflineByAZ[azSpec(host, app.config.OfflineModeAZSeparator)] == old(pendingOfflineByAZ[azSpec(host, app.config.OfflineModeAZSeparator)])
+//@   ensures C17.pending_inc [C17]: pendingOfflineByAZ[azSpec(host, app.config.OfflineModeAZSeparator)] == old(pendingOfflineByAZ[azSpec(host, app.config.OfflineModeAZSeparator)]) || (pendingOfflineByAZ[azSpec(host, app.config.OfflineModeAZSeparator)] == old(pendingOfflineByAZ[azSpec(host, app.config.OfflineModeAZSeparator)]) + 1 && e_SetOffline > old(e_SetOffline) && resultof("SetOffline", 1) == nil)
+
+//@ func (*app.App).repairMasterOfflineMode
+//@   requires nonnil [safety]: state != nil
+//@   ensures C17.master_online [C17]: e_SetOnline == old(e_SetOnline) + ((state.IsOffline && !resultof("IsRecoveryNeeded", 1)) ? 1 : 0)
+//@   ensures C17.master_never_offline [C17]: e_SetOffline == old(e_SetOffline)
+
+//@ func (*app.App).repairOfflineMode
+//@   requires vals_nonnil [safety]: forall k string :: has(clusterState, k) ==> clusterState[k] != nil
+//@   assert_at repairSlaveOfflineMode#1 C17.same_pass [C17]: callarg5 == pendingOfflineByAZ && callarg0 != master
+//@   assert_at repairMasterOfflineMode#1 C17.master_branch [C17]: callarg0 == master
